@@ -89,10 +89,8 @@ PlEntryMatches(e, q) ==
           ELSE (e.le = -1 \/ q.len <= e.le) /\ (e.ge = -1 \/ q.len >= e.ge)
 
 PlIdx(prog, af, name) ==
-  {i \in DOMAIN prog.plists :
-     /\ prog.plists[i].af = af /\ prog.plists[i].name = name
-     /\ ~\E j \in DOMAIN prog.plists :
-           j > i /\ prog.plists[j].af = af /\ prog.plists[j].name = name /\ prog.plists[j].seq = prog.plists[i].seq}
+  LET I0 == {i \in DOMAIN prog.plists : prog.plists[i].name = name /\ prog.plists[i].af = af} IN
+  {i \in I0 : ~\E j \in I0 : j > i /\ prog.plists[j].seq = prog.plists[i].seq}
 
 PlDefined(prog, af, name) == PlIdx(prog, af, name) # {}
 
@@ -125,9 +123,8 @@ ApplySets(sets, k, a) ==
                  ELSE a)
 
 RmIdx(prog, name) ==
-  {i \in DOMAIN prog.rmaps :
-     /\ prog.rmaps[i].name = name
-     /\ ~\E j \in DOMAIN prog.rmaps : j > i /\ prog.rmaps[j].name = name /\ prog.rmaps[j].seq = prog.rmaps[i].seq}
+  LET I0 == {i \in DOMAIN prog.rmaps : prog.rmaps[i].name = name} IN
+  {i \in I0 : ~\E j \in I0 : j > i /\ prog.rmaps[j].seq = prog.rmaps[i].seq}
 
 RECURSIVE RmWalk(_, _, _, _, _, _)
 RmWalk(prog, I, q, after, sticky, a) ==
